@@ -470,6 +470,41 @@ theorem choose_stream_buf (env : Env) (i : Input) (c : Chosen) (h : choose env i
         · split at hb <;> cases hb
         · cases hb
 
+/-- without form data the pipe is not opened, whatever the media type (the F11d repair) -/
+theorem opensPipe_noForm (i : Input) (hf : hasForm i = false) : opensPipe i = false := by
+  simp [opensPipe, hf]
+
+/-- The F11d repair as an invariant: whatever is chosen as the body, it is never the pipe without a
+writer — the pipe is opened only on the branch that starts the multipart goroutine. -/
+theorem choose_no_deadPipe (env : Env) (i : Input) (c : Chosen) (h : choose env i = .ok c) :
+    c.body ≠ .deadPipe := by
+  unfold choose at h
+  split at h
+  · split at h
+    · rename_i hm
+      injection h with h; subst h
+      have : opensPipe i = false := by
+        have : isMultipart i = false := by simpa using hm
+        simp [opensPipe, this]
+      simp only [initialBody, this]
+      split <;> simp
+    · injection h with h; subst h; simp
+  · rename_i hf
+    have hf' : hasForm i = false := by simpa using hf
+    have hop := opensPipe_noForm i hf'
+    split at h
+    · injection h with h; subst h
+      simp only [initialBody, hop]
+      split <;> simp
+    · injection h with h; subst h; simp
+    · injection h with h; subst h; simp
+    · split at h
+      · cases h
+      · cases h
+      · injection h with h; subst h
+        simp only [initialBody, hop]
+        split <;> simp
+
 /-! ## the whole build, once the body source is chosen -/
 
 theorem build_gate_error (env : Env) (i : Input) (hg : gatePasses env i.mediaType = false) :
@@ -516,17 +551,37 @@ theorem built_gets (env : Env) (i : Input) (b : Built) (h : build env i = .built
         subst h
         exact authPhase_sound i c (choose_nobody_buf env i c hc) st gets ha
 
+/-- No build ends in a GetBody call that never returns, and no built request has a body nobody writes. -/
+theorem build_no_hang (env : Env) (i : Input) :
+    build env i ≠ .hang ∧ ∀ b, build env i = .built b → b.sent ≠ .never := by
+  unfold build
+  split
+  · exact ⟨by simp, by intro b h; cases h⟩
+  · split
+    · exact ⟨by simp, by intro b h; cases h⟩
+    · exact ⟨by simp, by intro b h; cases h⟩
+    · rename_i c hc
+      have hd := choose_no_deadPipe env i c hc
+      split
+      · rename_i ha
+        exact absurd ha (authPhase_ne_none i c hd)
+      · rename_i st gets ha
+        refine ⟨by simp, ?_⟩
+        intro b h
+        injection h with h; subst h
+        simp only
+        rw [authPhase_preserves_sent i c (choose_stream_buf env i c hc) st gets ha]
+        simp only [St.init, sentOf]
+        cases hb : c.body <;> simp
+        exact hd hb
+
 /-! ## `choose`, branch by branch -/
 
 theorem initialBody_nobody (i : Input) (hp : i.payload = .none) (hf : hasForm i = false) : initialBody i = .nobody := by
   simp [initialBody, hp, hf]
 
-theorem initialBody_buffer (i : Input) (h : (i.payload != .none || hasForm i) = true) (hm : isMultipart i = false) :
+theorem initialBody_buffer (i : Input) (h : (i.payload != .none || hasForm i) = true) (hm : opensPipe i = false) :
     initialBody i = .buffer := by
-  simp only [initialBody, h, hm]; simp
-
-theorem initialBody_deadPipe (i : Input) (h : (i.payload != .none || hasForm i) = true) (hm : isMultipart i = true) :
-    initialBody i = .deadPipe := by
   simp only [initialBody, h, hm]; simp
 
 theorem choose_nil (env : Env) (i : Input) (hp : i.payload = .none) (hf : hasForm i = false) :
@@ -534,15 +589,9 @@ theorem choose_nil (env : Env) (i : Input) (hp : i.payload = .none) (hf : hasFor
   simp [choose, hf, hp, initialBody_nobody i hp hf]
 
 theorem choose_value (env : Env) (i : Input) (b : Bytes) (hp : i.payload = .value) (hf : hasForm i = false)
-    (hprod : env.produce i.mediaType = some (some b)) (hm : isMultipart i = false) :
+    (hprod : env.produce i.mediaType = some (some b)) :
     choose env i = .ok ⟨some i.mediaType, b, .buffer, none⟩ := by
-  have hb := initialBody_buffer i (by simp [hp]) hm
-  simp [choose, hf, hp, hprod, hb]
-
-theorem choose_value_deadPipe (env : Env) (i : Input) (b : Bytes) (hp : i.payload = .value) (hf : hasForm i = false)
-    (hprod : env.produce i.mediaType = some (some b)) (hm : isMultipart i = true) :
-    choose env i = .ok ⟨some i.mediaType, b, .deadPipe, none⟩ := by
-  have hb := initialBody_deadPipe i (by simp [hp]) hm
+  have hb := initialBody_buffer i (by simp [hp]) (opensPipe_noForm i hf)
   simp [choose, hf, hp, hprod, hb]
 
 theorem choose_value_error (env : Env) (i : Input) (hp : i.payload = .value) (hf : hasForm i = false)
@@ -563,7 +612,7 @@ theorem choose_readCloser (env : Env) (i : Input) (b : Bytes) (hp : i.payload = 
 
 theorem choose_urlencoded (env : Env) (i : Input) (hf : hasForm i = true) (hm : isMultipart i = false) :
     choose env i = .ok ⟨some i.mediaType, encodeForm i.fields, .buffer, none⟩ := by
-  have hb := initialBody_buffer i (by simp [hf]) hm
+  have hb := initialBody_buffer i (by simp [hf]) (by simp [opensPipe, hm])
   simp [choose, hf, hm, hb]
 
 theorem choose_multipart (env : Env) (i : Input) (hf : hasForm i = true) (hm : isMultipart i = true) :
